@@ -206,7 +206,7 @@ class _Shard:
             elif time.time() - self.last_change > STALL:
                 self.proc.kill(); self.proc.wait()
             return True
-        lines = open(self.outp).read().splitlines()
+        lines = open(self.outp, encoding="utf-8", errors="surrogatepass").read().split("\n")      # not splitlines(): U+2028, U+0085 ... inside strings are data
         n = 0
         for l in lines:
             try:
